@@ -457,6 +457,15 @@ func projectAPI(api *openapi.API) string {
 			resp(fmt.Sprint(c), op.Responses.StatusCode[c])
 		}
 		resp("default", op.Responses.Default)
+		for i, req := range op.Security {
+			var ss []string
+			for _, sc := range req.Schemes {
+				x := sc.Security
+				ss = append(ss, fmt.Sprintf("%s:%s/%s/%s/%s/custom=%v/%v", sc.Name, x.Type, x.Name, x.In, x.Scheme, x.XOgenCustomSecurity, sc.Scopes))
+			}
+			sort.Strings(ss)
+			fmt.Fprintf(&sb, " sec[%d]=%v", i, ss)
+		}
 		lines = append(lines, sb.String())
 	}
 	sort.Strings(lines)
